@@ -745,6 +745,8 @@ def selftest(a):
             continue
         print("SELFTEST %s: %s (%d violations; %s)" % (name, "caught" if n else "MISSED", n, keys))
         missed += 0 if n else 1
+    from harness import c19_growth                       # bounds, remaining statistics, reweighting, object identity
+    missed += c19_growth.selftest_growth(a)
     return 1 if missed else 0
 
 
@@ -805,9 +807,12 @@ def main():
     if a.selftest:
         return selftest(a)
     if a.replay:
-        return replay_artifact(a)
+        from harness import c19_growth
+        return c19_growth.replay_growth(a) if c19_growth.is_growth_artifact(a.replay) else replay_artifact(a)
     ck = new_check(a)
     explore(ck, a)
+    from harness import c19_growth                       # bounds, remaining statistics, reweighting, object identity
+    c19_growth.growth_part(ck, a)
     return ck.finish()
 
 
